@@ -80,7 +80,7 @@ def r3_fc_pairing(ck, cx):
         # the returned expressions with locals substituted (a response bound to a local first is still that constructor call)
         rets, seen_r = [], set()
         try:
-            for p in cx.enum(ex, cls, max_depth=0, max_paths=5000):
+            for p in cx.enum(ex, cls, max_depth=2, max_paths=5000):      # a body shared through a helper method is followed per request class
                 if p.exit and p.exit[0] == 'exc':
                     continue
                 annotate(p, heap=False)
